@@ -1021,7 +1021,7 @@ func init() {
 		}
 	}
 	register(&Prop{
-		ID: "C20", Level: "fault_enumeration", Run: runC20, Cases: cases(48, 400), MinNonTrivial: 8,
+		ID: "C20", Level: "fault_enumeration", Run: runC20, Cases: cases(128, 800), MinNonTrivial: 8,
 		Rule: "each case = one storage produced by a valid seeded history (nested inlined/standalone children, wrappers around references, large values, external collision groups, multi-level trees, two roots). Healthy side: CheckStorageHealth must accept the warm storage mid-history with a pending write set, after commit, and a fresh storage with everything preloaded, and return exactly the live roots; GetAllChildReferences(root) is compared as a multiset with an independent walk over decoded registers. " +
 			"Corrupted side, for EVERY slab (sampled to 70 when larger, keeping every reference kind): (1) delete a referenced slab - at ledger level + fresh storage, through the storage API uncommitted, and committed; (2) add an unreferenced copy / a fresh large-value slab with the expected root count unchanged - ledger level and API; (3) duplicate a referencing register so its children have two parents (root count unchecked); (4) move a referenced child to a foreign owner address and patch the 16-byte reference. Every corruption must be rejected; broken-reference lists must equal the deleted ids that are reachable. " +
 			"non-trivial = >3 deletions, a double reference and a foreign-owner corruption were applied and an index->child reference was among the kinds; distinct by hash(config, operation list)",
